@@ -12,7 +12,9 @@ import (
 	"strconv"
 	"strings"
 	"sync"
+	"sync/atomic"
 	"testing"
+	"time"
 
 	"github.com/IrineSistiana/mosdns/v5/coremain"
 	"github.com/IrineSistiana/mosdns/v5/pkg/query_context"
@@ -114,7 +116,14 @@ type trace struct {
 	ev []any
 }
 
+// traceEvents counts all invocations of one case; a program of at most a few hundred rules that produces a million
+// of them is looping (the plugins then panic, which ends the execution and is reported).
+var traceEvents atomic.Int64
+
 func (t *trace) add(v any) {
+	if traceEvents.Add(1) > 1000000 {
+		panic("c06: more than 1000000 plugin invocations in one case: the sequence is looping")
+	}
 	t.mu.Lock()
 	t.ev = append(t.ev, v)
 	t.mu.Unlock()
@@ -514,7 +523,17 @@ func runCase(c Case, ctx *hx.Ctx) *hx.Failure {
 	q.SetQuestion("c06.test.", dns.TypeA)
 	qCtx := query_context.NewContext(q)
 	gotT := &trace{}
-	err := entry.Exec(context.WithValue(context.Background(), traceKey{}, gotT), qCtx)
+	traceEvents.Store(0)
+	var err error
+	if done, hang, detail := hx.CallBounded(60*time.Second, func() {
+		err = entry.Exec(context.WithValue(context.Background(), traceKey{}, gotT), qCtx)
+	}); !done {
+		if hang {
+			return hx.Failf("C06/never-returns", "executing the program has not finished after 60 s; stuck:\n%s\nprogram: %s", detail, mustJSON(texts))
+		}
+		ctx.Class("inconclusive:exec-slow")
+		return nil
+	}
 
 	wantJ, gotJ := mustJSON(wantT.list()), mustJSON(gotT.list())
 	if wantJ != gotJ {
